@@ -7,7 +7,7 @@
 (* reported (greedy quantifiers); starts are taken leftmost-first under the  *)
 (* AFTER MATCH SKIP rule; MATCH_NUMBER counts 1,2,.. per partition;          *)
 (* unfinished accepting runs are flushed at Stop.  reset line: pat (AST),    *)
-(* defs = <<[v, k, c]>>, skip ("past" | "next"), part (partition column).    *)
+(* defs = <<[v, k, c]>>, skip ("past" | "next" | "first" | "last" with skback), part (partition column). *)
 (*   pattern AST: [t |-> "var", v] | "seq" ps | "alt" ps | "q" p lo hi (hi=-1: unbounded) *)
 (*   DEFINE kinds: "gt" c | "lt" c | "up" (v > PREV(v)) | "down" | "true"    *)
 (***************************************************************************)
@@ -61,7 +61,13 @@ Scan(ix, i) ==
   IF i > Len(ix) THEN <<>>
   ELSE LET j == Longest(ix, i) IN
        IF j = 0 THEN Scan(ix, i + 1)
-       ELSE <<<<i, j - 1>>>> \o Scan(ix, IF cfg.skip = "past" THEN j ELSE i + 1)
+       ELSE <<<<i, j - 1>>>> \o Scan(ix, CASE cfg.skip = "past" -> j
+                                               [] cfg.skip = "next" -> i + 1
+                                               \* SKIP TO FIRST / LAST <var> for the pattern shapes A B+ [C]: the rows of B are positional
+                                               \* (first B = second row of the match; last B = last or last-but-one row)
+                                               \* (the engine's rule, cep/engine.go skipTo: the next match may start AFTER that row)
+                                               [] cfg.skip = "first" -> i + 2
+                                               [] cfg.skip = "last" -> (j - 1) - cfg.skback + 1)
 Expected(k) == LET ix == PIdx(k)  ms == Scan(ix, 1) IN
                [m \in 1..Len(ms) |-> [f |-> Col(evs[ix[ms[m][1]]], "id"), l |-> Col(evs[ix[ms[m][2]]], "id"), n |-> ms[m][2] - ms[m][1] + 1, mn |-> m]]
 \* matches delivered for partition k, in delivery order
@@ -90,6 +96,7 @@ Next ==
      ELSE IF e.e = "quiesce" THEN
         /\ IF QuiesceCode = "" THEN UNCHANGED dead ELSE Reject(QuiesceCode)
         /\ UNCHANGED <<cfg, evs, got>>
+     ELSE IF e.e = "void" THEN dead' = TRUE /\ UNCHANGED <<cfg, evs, got>>      \* the driver could not keep its real-time schedule: no verdict
      ELSE IF e.e \in {"execerr", "panic"} THEN Reject("engine_" \o e.e) /\ UNCHANGED <<cfg, evs, got>>
      ELSE UNCHANGED <<cfg, evs, got, dead>>
 Spec == Init /\ [][Next]_vars
